@@ -141,6 +141,8 @@ pub enum Ev {
   BuDropped,
   /// An aborted build was caught inside the session; the same session is used further.
   Continue,
+  /// An external change made while the session is open (between two bottom-up builds of one session).
+  MidChange { res: ResKey, new: Option<Val> },
   ExecStart { t: Tid, n: u32, bottom_up: bool },
   ExecEnd { t: Tid, n: u32, out: Out },
   OpStart { t: Tid, n: u32, pos: u32, op: OpK, target: Target },
@@ -198,6 +200,8 @@ pub struct Sim {
   pub file_dir: Option<std::path::PathBuf>,
   /// Key announced by the last `execute_start` tracker event (disambiguates wrapper families around one inner type).
   pub next_exec_key: Option<TaskKey>,
+  /// External edits made while a session is open, not yet applied to the world inside pie's resource state.
+  pub pending_edits: Vec<(ResKey, Option<Val>)>,
 }
 
 impl Default for Sim {
@@ -205,7 +209,7 @@ impl Default for Sim {
     Sim {
       log: Vec::new(), next_serial: 1, next_reader: 1, prog: None, op_stack: vec![], exec_stack: vec![], exec_count: vec![],
       ticks: 0, check_calls: 0, read_calls: 0, write_calls: 0, faults: FaultPlan::default(), crash_fired: false,
-      errors_injected: vec![], depth_guard_fired: false, execs_this_session: 0, file_dir: None, next_exec_key: None,
+      errors_injected: vec![], depth_guard_fired: false, execs_this_session: 0, file_dir: None, next_exec_key: None, pending_edits: vec![],
     }
   }
 }
@@ -285,6 +289,16 @@ impl SimWriter<'_> {
   pub fn get(&self) -> Cell { self.world.get(self.key.id) }
 }
 
+/// The simulated world of family `F`, with the external edits applied that were made while a session was open (the
+/// session borrows pie's resource state, so such edits wait in the simulator and are applied before the next access:
+/// nobody can observe the world in between).
+pub fn sim_world<const F: u8, RS: ResourceState<R<F>>>(state: &mut RS) -> &mut SimWorld {
+  let w = state.get_or_set_default_mut::<SimWorld>();
+  let edits: Vec<(u32, Option<Val>)> = with_sim(|s| { let mine: Vec<(u32, Option<Val>)> = s.pending_edits.iter().filter(|(k, _)| k.fam == F).map(|(k, v)| (k.id, *v)).collect(); s.pending_edits.retain(|(k, _)| k.fam != F); mine });
+  for (id, v) in edits { w.set(id, v); }
+  w
+}
+
 impl<const F: u8> Resource for R<F> {
   type Reader<'rs> = SimReader;
   type Writer<'r> = SimWriter<'r>;
@@ -294,7 +308,7 @@ impl<const F: u8> Resource for R<F> {
     let key = ResKey { fam: F, id: self.0 };
     let fail = with_sim(|s| { s.read_calls += 1; s.faults.read_err_at == Some(s.read_calls) });
     if fail { return Err(SimErr(7000 + self.0)); }
-    let cell = state.get_or_set_default_mut::<SimWorld>().get(self.0);
+    let cell = sim_world::<F, RS>(state).get(self.0);
     let serial = with_sim(|s| { let v = s.next_reader; s.next_reader += 1; v });
     log(Ev::ResRead { res: key, reader: serial, cell });
     Ok(SimReader { serial, cell, cursor: 0, key })
@@ -305,7 +319,7 @@ impl<const F: u8> Resource for R<F> {
     let fail = with_sim(|s| { s.write_calls += 1; s.faults.write_err_at == Some(s.write_calls) });
     if fail { return Err(SimErr(8000 + self.0)); }
     log(Ev::ResWriteOpen { res: key });
-    Ok(SimWriter { world: state.get_or_set_default_mut::<SimWorld>(), key })
+    Ok(SimWriter { world: sim_world::<F, RS>(state), key })
   }
 }
 
@@ -340,7 +354,7 @@ impl<const F: u8> ResourceChecker<R<F>> for RChk {
   fn stamp<RS: ResourceState<R<F>>>(&self, resource: &R<F>, state: &mut RS) -> Result<RStamp, SimErr> {
     tick();
     let key = ResKey { fam: F, id: resource.0 };
-    let cell = state.get_or_set_default_mut::<SimWorld>().get(resource.0);
+    let cell = sim_world::<F, RS>(state).get(resource.0);
     let serial = new_serial();
     let proj = self.kind.stamp_of(cell);
     log(Ev::RStamp { serial, owner: owner_for(Target::Res(key)), route: Route::Path, res: key, chk: self.kind, seen: cell, proj, reader: None });
@@ -373,7 +387,7 @@ impl<const F: u8> ResourceChecker<R<F>> for RChk {
   fn check<RS: ResourceState<R<F>>>(&self, resource: &R<F>, state: &mut RS, stamp: &RStamp) -> Result<Option<impl Debug>, SimErr> {
     tick();
     let key = ResKey { fam: F, id: resource.0 };
-    let cell = state.get_or_set_default_mut::<SimWorld>().get(resource.0);
+    let cell = sim_world::<F, RS>(state).get(resource.0);
     let err = with_sim(|s| {
       s.check_calls += 1;
       if s.faults.check_err_calls.contains(&s.check_calls) || s.faults.check_err_res.contains(&key) {
@@ -416,7 +430,7 @@ impl<const F: u8> ResourceChecker<R<F>> for ZChk {
   fn stamp<RS: ResourceState<R<F>>>(&self, resource: &R<F>, state: &mut RS) -> Result<ZStamp, SimErr> {
     tick();
     let key = ResKey { fam: F, id: resource.0 };
-    let cell = state.get_or_set_default_mut::<SimWorld>().get(resource.0);
+    let cell = sim_world::<F, RS>(state).get(resource.0);
     log(Ev::RStamp { serial: self.serial, owner: owner_for(Target::Res(key)), route: Route::Path, res: key, chk: self.kind, seen: cell, proj: None, reader: None });
     Ok(ZStamp)
   }
@@ -437,7 +451,7 @@ impl<const F: u8> ResourceChecker<R<F>> for ZChk {
   fn check<RS: ResourceState<R<F>>>(&self, resource: &R<F>, state: &mut RS, _stamp: &ZStamp) -> Result<Option<impl Debug>, SimErr> {
     tick();
     let key = ResKey { fam: F, id: resource.0 };
-    let cell = state.get_or_set_default_mut::<SimWorld>().get(resource.0);
+    let cell = sim_world::<F, RS>(state).get(resource.0);
     if let Some(code) = injected_check_error(key, self.serial) {
       log(Ev::RCheck { serial: self.serial, res: key, chk: self.kind, now: cell, verdict: Verdict::Error(code) });
       return Err(SimErr(code));
